@@ -948,8 +948,8 @@ Qed.
 
 (* ================= counterexamples to [stmt_status_iff] as stated in CacheDefs ================= *)
 Module Cex.
-  Definition str (x : String.string) : bytes := of_string x.
-  Arguments str x%string_scope.
+  Import String.
+  Definition str (x : string) : bytes := of_string x.
 
   (* --- 1. without [H_has]: the identity hash, a child whose checksum "ab" is a cache key --- *)
   Definition Hid (b : bytes) : bytes := b.
@@ -974,7 +974,7 @@ Module Cex.
       - intros m Hm. vm_compute in Hm. injection Hm as <-. repeat constructor. }
     assert (Hn : sorted_tree n1).
     { cbn [sorted_tree n1]. split; [|split; exact I]. repeat constructor. }
-    destruct (Hst Hid_inj 3 a1 n1 c1 s1 Hc Hp Hn eq_refl) as [_ Hback]; [vm_compute; reflexivity|exact Hs|].
+    destruct (Hst Hid_inj 3%nat a1 n1 c1 s1 Hc Hp Hn eq_refl) as [_ Hback]; [vm_compute; reflexivity|exact Hs|].
     assert (Hf : st_cm s1 = false) by (vm_compute; reflexivity).
     rewrite Hback in Hf; [discriminate|].
     exists (Dir [(str "f", File ab)]). split; [vm_compute; reflexivity|]. split; [vm_compute; reflexivity|].
@@ -988,7 +988,7 @@ Module Cex.
   Lemma Ht_inj : H_inj Ht.
   Proof. intros a b Hab. unfold Ht in Hab. exact (app_inv_head _ _ _ Hab). Qed.
   Lemma Ht_has : H_has Ht.
-  Proof. intros b. unfold has_cs, Ht. cbn [app length]. apply N.leb_le. lia. Qed.
+  Proof. intros b. unfold has_cs, Ht. cbn [app List.length]. apply N.leb_le. lia. Qed.
 
   Definition fb := str "hello".
   Definition msub := enc_manifest (mkMan (str "sub") [(str "g", mkArt (Ht fb) (str "g") false false false)]).
@@ -1012,7 +1012,7 @@ Module Cex.
       - intros m Hm. vm_compute in Hm. injection Hm as <-. repeat constructor. }
     assert (Hn : sorted_tree n2).
     { cbn [sorted_tree n2]. repeat split; repeat constructor. }
-    destruct (Hst Ht_inj 3 a2 n2 c2 s2 Hc Hp Hn eq_refl) as [Hfwd _]; [vm_compute; reflexivity|exact Hs|].
+    destruct (Hst Ht_inj 3%nat a2 n2 c2 s2 Hc Hp Hn eq_refl) as [Hfwd _]; [vm_compute; reflexivity|exact Hs|].
     destruct Hfwd as (t & Hexp & Htv & _); [vm_compute; reflexivity|].
     vm_compute in Hexp. vm_compute in Htv. rewrite <- Htv in Hexp. discriminate.
   Qed.
